@@ -83,6 +83,40 @@ const ASCII_WORDS: &[&str] = &[
 const MULTI: &[&str] = &["é", "→", "😀", "ü", "中"];
 
 pub fn gen_text(rng: &mut Rng, max_len: usize, ascii: bool) -> String {
+  // rare size / alignment classes that small random texts never reach
+  if max_len >= 12 {
+    match rng.below(60) {
+      0 => return gen_long_line_text(rng, ascii),
+      1 => return gen_text_inner(rng, max_len, ascii).replace('\n', "\r\n"),
+      _ => {}
+    }
+  }
+  gen_text_inner(rng, max_len, ascii)
+}
+
+/// A text with one or two very long lines (columns beyond 32 / 1024: multi-digit VLQ).
+fn gen_long_line_text(rng: &mut Rng, ascii: bool) -> String {
+  let mut s = String::new();
+  let lines = rng.range(1, 3);
+  for l in 0..lines {
+    let target = *rng.pick(&[70usize, 300, 1100, 2100]);
+    while s.len() < target * (l + 1) / lines.max(1) + 10 {
+      s.push_str(*rng.pick(ASCII_WORDS));
+      if rng.chance(1, 6) {
+        s.push(*rng.pick(&[';', ' ', '{', '}']));
+      }
+      if !ascii && rng.chance(1, 40) {
+        s.push_str(*rng.pick(MULTI));
+      }
+    }
+    if l + 1 < lines || rng.chance(1, 2) {
+      s.push('\n');
+    }
+  }
+  s
+}
+
+fn gen_text_inner(rng: &mut Rng, max_len: usize, ascii: bool) -> String {
   let shape = rng.below(20);
   if shape == 0 {
     return String::new();
@@ -280,7 +314,12 @@ pub fn gen_consistent_map(
         let (line, col) = if Some(src) == identity_idx {
           (gl, gc)
         } else {
-          (rng.range(1, 5) as u32, rng.below(12) as u32)
+          if rng.chance(1, 25) {
+            // far-away original positions (multi-digit VLQ deltas)
+            (rng.range(30, 5000) as u32, rng.range(30, 70000) as u32)
+          } else {
+            (rng.range(1, 5) as u32, rng.below(12) as u32)
+          }
         };
         let name = (!names.is_empty() && rng.chance(1, 3))
           .then(|| rng.below(names.len()) as u32);
@@ -392,10 +431,12 @@ pub fn gen_wild_map(rng: &mut Rng, text: &str, pool: &mut Pool) -> MapSpec {
 pub fn gen_ops(rng: &mut Rng, inner: &str, cfg: &GenCfg, pool: &Pool) -> Vec<Op> {
   let b = boundaries(inner);
   let len = inner.len();
-  let n = match rng.below(10) {
-    0 => 0,
-    1..=4 => 1,
-    5..=7 => 2,
+  let n = match rng.below(40) {
+    0..=3 => 0,
+    4..=19 => 1,
+    20..=31 => 2,
+    // rarely a long replacement list (sorting / index tables beyond small sizes)
+    32 => rng.range(20, 45),
     _ => rng.range(3, cfg.max_ops.max(3)),
   };
   let newlines: Vec<usize> = inner
@@ -490,6 +531,19 @@ pub fn gen_ops(rng: &mut Rng, inner: &str, cfg: &GenCfg, pool: &Pool) -> Vec<Op>
       }
       16..=17 => format!("{}\n", gen_text(rng, 5, cfg.ascii).replace('\n', "")),
       _ => "\n".to_string(),
+    };
+    // rare coincidence: the replacement content equals (a prefix of) the text it replaces
+    let content = if rng.chance(1, 14) && (start as usize) < len {
+      let e = (end as usize).min(len);
+      let s0 = (start as usize).min(e);
+      if rng.chance(1, 2) {
+        inner[s0..e].to_string()
+      } else {
+        // same original text followed by something else
+        format!("{}{}", &inner[s0..e], content)
+      }
+    } else {
+      content
     };
     let name = rng.chance(1, 3).then(|| rng.pick(&pool.names).clone());
     let enforce = match rng.below(10) {
@@ -682,9 +736,11 @@ pub fn gen_tree(rng: &mut Rng, cfg: &GenCfg, pool: &mut Pool, depth: usize, unde
     match r {
       0..=29 => return gen_leaf(rng, cfg, pool),
       30..=61 => {
-        let n = match rng.below(10) {
-          0 => 0,
-          1 => 1,
+        let n = match rng.below(40) {
+          0..=3 => 0,
+          4..=7 => 1,
+          // rarely a wide concatenation (index tables, offsets over many children)
+          8 if depth <= 1 => rng.range(9, 24),
           _ => rng.range(2, cfg.max_width.max(2)),
         };
         let children = (0..n)
@@ -724,5 +780,13 @@ pub fn gen_tree(rng: &mut Rng, cfg: &GenCfg, pool: &mut Pool, depth: usize, unde
 /// One random tree with a fresh pool.
 pub fn gen_case(rng: &mut Rng, cfg: &GenCfg) -> Spec {
   let mut pool = new_pool(rng, cfg);
+  if rng.chance(1, 40) {
+    // rarely a deep, narrow tree
+    let mut deep = cfg.clone();
+    deep.max_depth = cfg.max_depth + rng.range(3, 6);
+    deep.max_width = 2;
+    deep.max_text = cfg.max_text.min(12);
+    return gen_tree(rng, &deep, &mut pool, 0, false);
+  }
   gen_tree(rng, cfg, &mut pool, 0, false)
 }
